@@ -52,6 +52,8 @@ structure Tables where
   symbolUnchecked : Bool
   fieldPosAfterLookahead : Bool
   opErrPosAfterLookahead : Bool
+  fragCondPosAfterToken : Bool
+  varDefPosAfterToken : Bool
   leafErrNulls : Bool
   fastSliceCopies : Bool
 
